@@ -36,6 +36,11 @@ def toTriangle (s : Nat) : Nat :=
 
 def kingMap (s : Nat) : Nat := (kingMapInverse.idxOf (toTriangle s))
 
+/-- the three static arrays of `TBIndex`, tabulated once -/
+def symTypeTab : Array Nat := Array.ofFn (n := 64) fun i => symType i.val
+def kingMapTab : Array Nat := Array.ofFn (n := 64) fun i => kingMap i.val
+def kingMapInvTab : Array Nat := kingMapInverse.toArray
+
 /-! ## `TBIndex` -/
 
 abbrev W := UInt64    -- holds the U32 index; no operation below leaves the low 32 bits
@@ -49,6 +54,8 @@ structure Shape where
   colBits : W          -- bits of the square columns of slots 1..p-1
   rowBits : W          -- bits of the square rows of slots 1..p-1
   duplicated : Bool    -- `TBPosition::duplicatedPieces`
+  slots1 : List Nat    -- 1, …, p-1
+  slots0 : List Nat    -- 0, …, p-1
 deriving Repr
 
 def kindCode : Kind → Nat
@@ -59,7 +66,8 @@ def mkShape (p nWhite : Nat) (types : List Nat) : Shape :=
     colBits := (List.range (p - 1)).foldl (fun a i => a ||| ((0x07 : W) <<< (6*i).toUInt64)) 0,
     rowBits := (List.range (p - 1)).foldl (fun a i => a ||| ((0x38 : W) <<< (6*i).toUInt64)) 0,
     duplicated := (List.range' 1 (p - 1)).any fun i => (List.range' (i+1) (p - 1 - i)).any fun j =>
-      types.getD i 0 == types.getD j 0 }
+      types.getD i 0 == types.getD j 0,
+    slots1 := List.range' 1 (p - 1), slots0 := List.range p }
 
 def CC.shape (c : CC) : Shape :=
   mkShape c.n c.nWhite (c.slots.map fun sl => kindCode sl.2 + (if sl.1 then 0 else 6))
@@ -74,7 +82,7 @@ def mask32 : W := 0xffffffff
 @[inline] def Shape.sideShift (sh : Shape) : W := (6*sh.p - 6).toUInt64
 
 def Shape.getSquare (sh : Shape) (idx : W) (i : Nat) : Nat :=
-  if i == 0 then kingMapInverse.getD ((idx >>> sh.kingShift) &&& 0xf).toNat 0
+  if i == 0 then kingMapInvTab.getD ((idx >>> sh.kingShift) &&& 0xf).toNat 0
   else ((idx >>> sh.pieceShift i) &&& 0x3f).toNat
 
 def Shape.mirrorX (sh : Shape) (idx : W) : W := idx ^^^ sh.colBits
@@ -91,19 +99,19 @@ def Shape.putSquare (sh : Shape) (idx : W) (i sq : Nat) : W :=
 /-- `TBIndex::setSquare` -/
 def Shape.setSquare (sh : Shape) (idx : W) (i sq : Nat) : W :=
   if i == 0 then
-    let idx := clearBits idx ((0xf : W) <<< sh.kingShift) ||| ((kingMap sq).toUInt64 <<< sh.kingShift)
-    let sym := symType sq
+    let idx := clearBits idx ((0xf : W) <<< sh.kingShift) ||| ((kingMapTab.getD sq 0).toUInt64 <<< sh.kingShift)
+    let sym := symTypeTab.getD sq 0
     let idx := if sym &&& 1 != 0 then sh.mirrorX idx else idx
     let idx := if sym &&& 2 != 0 then sh.mirrorY idx else idx
     if sym &&& 4 != 0 then sh.mirrorD idx else idx
   else if i == sh.nWhite then
     let oldSq := sh.getSquare idx i
-    (List.range' 1 (sh.p - 1)).foldl (fun idx j => if sh.getSquare idx j == oldSq then sh.putSquare idx j sq else idx) idx
+    sh.slots1.foldl (fun idx j => if sh.getSquare idx j == oldSq then sh.putSquare idx j sq else idx) idx
   else sh.putSquare idx i sq
 
 /-- `TBIndex::sortPieces`: within each run of equal men, smaller squares first -/
 def Shape.sortPieces (sh : Shape) (idx : W) : W :=
-  (List.range' 1 (sh.p - 1)).foldl (fun idx i =>
+  sh.slots1.foldl (fun idx i =>
     ((List.range' (i+1) (sh.p - 1 - i)).foldl (fun (st : W × Bool) j =>
       if st.2 then st
       else if sh.types.getD i 0 != sh.types.getD j 0 then (st.1, true)      -- `break`
@@ -124,41 +132,51 @@ def Shape.canonize (sh : Shape) (idx : W) : W :=
     if idx < idx0 then idx else idx0
   else idx
 
+/-- no square other than `bk` occurs twice -/
+def distinctNot (bk : Nat) : List Nat → Bool
+  | [] => true
+  | a :: l => (a == bk || !l.contains a) && distinctNot bk l
+
 /-- `TBPosition::indexValid` -/
 def Shape.indexValid (sh : Shape) (idx : W) : Bool :=
   let bk := sh.getSquare idx sh.nWhite
   if sh.getSquare idx 0 == bk then false
   else
-    let sqs := ((List.range sh.p).map (sh.getSquare idx)).filter (· != bk)
-    if !distinct sqs then false
+    if !distinctNot bk (sh.slots0.map (sh.getSquare idx)) then false   -- two men (not counting captured ones) on one square
     else sh.canonize idx == idx
 
 /-! ## `TBPosition::setPosition` on a general board -/
 
-/-- A chess position as `setPosition` sees it: the men as `(piece code 1..12, square)` pairs in increasing
-    square order (the order in which `BitBoard::extractSquare` delivers the bits of a piece bitboard),
-    the side to move and the castling mask. -/
+/-- A chess position as `setPosition` sees it: the men, each coded as `square * 16 + piece code (1..12)`, in
+    increasing order — i.e. by square, the order in which `BitBoard::extractSquare` delivers the bits of a piece
+    bitboard —, the side to move and the castling mask. -/
 structure Board where
-  men : List (Nat × Nat)
+  men : List Nat
   wtm : Bool
   castle : Nat
 deriving Repr
 
-/-- remove the first (= lowest-square) man with the given code -/
-def takeFirst (code : Nat) : List (Nat × Nat) → Option (Nat × List (Nat × Nat))
+@[inline] def manCode (m : Nat) : Nat := m % 16
+@[inline] def manSq (m : Nat) : Nat := m / 16
+@[inline] def mkMan (code sq : Nat) : Nat := sq * 16 + code
+
+/-- remove the first (= lowest-square) man with the given code: its square and the other men -/
+def takeFirst (code : Nat) : List Nat → Option (Nat × List Nat)
   | [] => none
-  | m :: l => if m.1 == code then some (m.2, l)
+  | m :: l => if manCode m == code then some (manSq m, l)
               else match takeFirst code l with
                 | some (s, l') => some (s, m :: l')
                 | none => none
 
 def isKingCode (code : Nat) : Bool := code == 1 || code == 7
 
-def findSq (code : Nat) (men : List (Nat × Nat)) : Nat := ((men.find? fun m => m.1 == code).map (·.2)).getD 0
+def findSq (code : Nat) : List Nat → Nat
+  | [] => 0
+  | m :: l => if manCode m == code then manSq m else findSq code l
 
 /-- the placement loop of `setPosition`: `(idx, remaining men)` after handling the slots `i, i+1, …` whose piece
     codes are listed -/
-def Shape.place (sh : Shape) (bk : Nat) : Nat → List Nat → W → List (Nat × Nat) → W × List (Nat × Nat)
+def Shape.place (sh : Shape) (bk : Nat) : Nat → List Nat → W → List Nat → W × List Nat
   | _, [], idx, men => (idx, men)
   | i, code :: codes, idx, men =>
     match takeFirst code men with
@@ -182,19 +200,21 @@ def Shape.setPosition (sh : Shape) (b : Board) : Option Nat :=
 
 /-! ## Game positions as boards -/
 
-def insertBySq (m : Nat × Nat) : List (Nat × Nat) → List (Nat × Nat)
+def insertMan (m : Nat) : List Nat → List Nat
   | [] => [m]
-  | a :: l => if m.2 < a.2 then m :: a :: l else a :: insertBySq m l
+  | a :: l => if m < a then m :: a :: l else a :: insertMan m l
 
-def sortBySq (l : List (Nat × Nat)) : List (Nat × Nat) := l.foldr insertBySq []
+def sortMen : List Nat → List Nat
+  | [] => []
+  | m :: l => insertMan m (sortMen l)
 
-/-- the men on the board, `(piece code, square)`, in slot order -/
-def presentMen : List Nat → List Nat → List (Nat × Nat)
-  | code :: codes, s :: sqs => if s < 64 then (code, s) :: presentMen codes sqs else presentMen codes sqs
+/-- the men on the board, in slot order -/
+def presentMen : List Nat → List Nat → List Nat
+  | code :: codes, s :: sqs => if s < 64 then mkMan code s :: presentMen codes sqs else presentMen codes sqs
   | _, _ => []
 
 def toBoard (sh : Shape) (p : Pos) : Board :=
-  { men := sortBySq (presentMen sh.types p.sq), wtm := p.wtm, castle := 0 }
+  { men := sortMen (presentMen sh.types p.sq), wtm := p.wtm, castle := 0 }
 
 /-- the table index of a game position, as `setPosition` computes it -/
 def indexOf (sh : Shape) (p : Pos) : Option Nat := sh.setPosition (toBoard sh p)
@@ -203,7 +223,7 @@ def indexOf (sh : Shape) (p : Pos) : Option Nat := sh.setPosition (toBoard sh p)
 def posOfIndex (sh : Shape) (idx : W) : Pos :=
   let bk := sh.getSquare idx sh.nWhite
   { wtm := sh.whiteMove idx,
-    sq := (List.range sh.p).map fun i => let s := sh.getSquare idx i; if i != sh.nWhite && s == bk then captured else s }
+    sq := sh.slots0.map fun i => let s := sh.getSquare idx i; if i != sh.nWhite && s == bk then captured else s }
 
 /-! ## `PositionValue` -/
 
